@@ -98,10 +98,94 @@ func prefixLines(text, pfx string) string {
 	return sb.String()
 }
 
-func c08IllCrossN() int { return len(c08Minus) * len(c08Plus) }
+func c08IllCrossN() int { return len(c08Minus)*len(c08Plus) + c08EmptyListN() }
+
+// ---- lists that "..." can leave empty -----------------------------------------
+//
+// Every construct of the Go syntax that holds a list, with the elision on
+// either end of the list or on both, against a target where the "..." stands
+// for no element at all, and a "+" side that keeps nothing but the elision (or
+// nothing at all): the replacement is then a node with an empty list in a place
+// where go/ast, the printer or the next change's matcher expect an element.
+
+type c08ListCtx struct {
+	name      string
+	pat       string // pattern with LIST where the list goes
+	elem      string // pattern for one element
+	sep       string
+	src       string // target statement with LIST
+	srcElem   string
+	srcOthers []string
+}
+
+var c08ListCtxs = []c08ListCtx{
+	{"define-lhs", "LIST := foo()", "y", ", ", "LIST := foo()", "err", []string{"a", "b"}},
+	{"define-rhs", "v := LIST", "x", ", ", "v := LIST", "g(1)", nil},
+	{"assign-lhs", "LIST = foo()", "y", ", ", "LIST = foo()", "err", []string{"a", "b"}},
+	{"assign-rhs", "v, w = LIST", "x", ", ", "v, w = LIST", "g(1)", []string{"2"}},
+	{"return", "return LIST", "x", ", ", "return LIST", "g(1)", nil},
+	{"call-args", "foo(LIST)", "x", ", ", "foo(LIST)", "g(1)", []string{"2", "3"}},
+	{"method-args", "y.foo(LIST)", "x", ", ", "obj.foo(LIST)", "g(1)", []string{"2"}},
+	{"defer-args", "defer foo(LIST)", "x", ", ", "defer foo(LIST)", "g(1)", []string{"2"}},
+	{"complit-elts", "Cfg{LIST}", "x", ", ", "_ = Cfg{LIST}", "g(1)", []string{"2"}},
+	{"slice-lit", "[]int{LIST}", "x", ", ", "_ = []int{LIST}", "g(1)", []string{"2"}},
+	{"funclit-params", "bar(func(LIST) {})", "y int", ", ", "bar(func(LIST) {})", "n int", []string{"s string"}},
+	{"funclit-results", "bar(func() (LIST) { return })", "y int", ", ", "bar(func() (LIST) { return })", "n int", []string{"s string"}},
+	{"var-names", "var LIST = foo()", "y", ", ", "var LIST = foo()", "err", []string{"a"}},
+	{"var-values", "var v = LIST", "x", ", ", "var v = LIST", "g(1)", nil},
+	{"case-list", "switch y {\ncase LIST:\n}", "x", ", ", "switch k {\n\tcase LIST:\n\t}", "1", []string{"2"}},
+	{"generic-args", "gen[LIST](1)", "y", ", ", "gen[LIST](1)", "int", []string{"string"}},
+	{"block-stmts", "{\nLIST\n}", "foo(x)", "\n", "{\n\t\tLIST\n\t}", "foo(1)", []string{"bar()"}},
+	{"if-body", "if y {\nLIST\n}", "foo(x)", "\n", "if ok {\n\t\tLIST\n\t}", "foo(1)", []string{"bar()"}},
+	{"struct-fields", "var _ = struct{\nLIST\n}{}", "y int", "\n", "var _ = struct {\n\t\tLIST\n\t}{}", "n int", []string{"s string"}},
+	{"go-args", "go foo(LIST)", "x", ", ", "go foo(LIST)", "g(1)", nil},
+}
+
+// forms of the list on the "-" side (E the element) and on the "+" side
+var c08ListMinus = []string{"..., E", "E, ...", "..., E, ...", "...", "E"}
+var c08ListPlus = []string{"...", "", "..., ...", "E", "..., E", "E, ..."}
+
+func c08EmptyListN() int { return len(c08ListCtxs) * len(c08ListMinus) * len(c08ListPlus) * 2 }
+
+func c08EmptyList(j int) (name string, patch, src []byte) {
+	wide := j%2 == 1
+	j /= 2
+	pf := c08ListPlus[j%len(c08ListPlus)]
+	j /= len(c08ListPlus)
+	mf := c08ListMinus[j%len(c08ListMinus)]
+	cx := c08ListCtxs[(j/len(c08ListMinus))%len(c08ListCtxs)]
+	form := func(f string) string {
+		f = strings.ReplaceAll(f, ", ", cx.sep)
+		f = strings.ReplaceAll(f, "E", cx.elem)
+		return strings.ReplaceAll(cx.pat, "LIST", f)
+	}
+	pt := "@@\nvar x expression\nvar y identifier\n@@\n" + prefixLines(form(mf), "-") + prefixLines(form(pf), "+")
+	sep := cx.sep
+	if sep == "\n" {
+		sep = "\n\t\t"
+	}
+	list := cx.srcElem
+	if wide {
+		switch {
+		case strings.HasPrefix(mf, "...") && len(cx.srcOthers) > 0:
+			list = strings.Join(cx.srcOthers, sep) + sep + list
+		case len(cx.srcOthers) > 0:
+			list = list + sep + strings.Join(cx.srcOthers, sep)
+		}
+	}
+	s := "package sample\n\nfunc f() int {\n\t" + strings.ReplaceAll(cx.src, "LIST", list) + "\n\treturn 0\n}\n"
+	w := "one"
+	if wide {
+		w = "several"
+	}
+	return "empty-list/" + cx.name + "/" + mf + "->" + pf + "/" + w, []byte(pt), []byte(s)
+}
 
 // c08IllCross returns the j-th (patch, source) pair of the cross product.
 func c08IllCross(j int) (name string, patch, src []byte) {
+	if j >= len(c08Minus)*len(c08Plus) {
+		return c08EmptyList(j - len(c08Minus)*len(c08Plus))
+	}
 	m := c08Minus[(j/len(c08Plus))%len(c08Minus)]
 	p := c08Plus[j%len(c08Plus)]
 	pt := "@@\nvar x expression\nvar y identifier\n@@\n" + prefixLines(m.text, "-") + prefixLines(p.text, "+")
